@@ -209,10 +209,12 @@ func findInlineNode(file *ast.File, comment *ast.Comment, fset *token.FileSet) (
 			return false
 		}
 
+		nodeStartLine := fset.PositionFor(n.Pos(), false).Line
 		nodeEndLine := fset.PositionFor(n.End(), false).Line
 
-		// Check if this node ends on the same line as the comment
-		if nodeEndLine == commentLine {
+		// Check if this node ends on the same line as the comment, or starts there: a line
+		// that only opens a construct ("for {", "switch {", "var (", "{") is code as well
+		if nodeEndLine == commentLine || nodeStartLine == commentLine {
 			hasCodeOnLine = true
 			return false // Found code, can stop
 		}
